@@ -243,6 +243,9 @@ var snippets = []string{
 	"while(a)x='s'", "while(a)`t`", "while(a)/r/", "while(a)1", "do 's';while(a)", "if(a)'s';else `t`", "for(;;)'s'", "for(a in b)`t`", "for(a of b)/r/", "with(a)'s'", "l:'s'",
 	"switch(a){case 's':`t`;default:/r/}", "try{'s'}catch{`t`}finally{/r/}", "while('s')`t`", "x={'5':1}", "class A{'5'(){}}", "x={'1.0':1,'.5':2,'5.':3,'010':4,'a':5,'if':6,'a-b':7}",
 	"let instanceof b", "let in b", "let\ninstanceof b",
+	// quoted property names that must stay quoted: escapes, and characters an identifier cannot hold
+	"x={'a\\nb':1}", "x={\"\\n\":1}", "x={'\\x41':1,\"\\u0041\":2,'a\\\\b':3,'\\0':4,'\\t':5}", "class A{'a\\tb'(){}'\\n'=1;static '\\\\'(){}}", "({'\\n':a}=b)",
+	"x={'\\u{41}':1,'a\\u0062':2}", "x={'a b':1,'a-b':2,'1a':3,'':4,'a.b':5,'é':6,'a\u200d':7,'$':8,'_':9,'if':10,'\\u0069f':11}",
 	// unbraced bodies that are declarations or end in an expression: what follows must stay a separate statement
 	"while(a)var x=b", "for(;;)var x=b", "for(a in b)var x=c", "for(a of b)var x=c", "if(a)var x=b", "if(a)var x=b;else var y=c", "do var x=b;while(a)", "with(a)var x=b", "l:var x=b",
 	"while(a)x=b", "for(;;)x=b", "if(a)x=b;else y=c", "l:x=b", "while(a)x=function(){}", "while(a)x=class{}", "if(a)x=()=>{}", "while(a)do x=b;while(c)", "if(a)return;else throw b",
@@ -275,7 +278,13 @@ func Record(args []string) {
 		r.sum.Cases++
 		accepted := false
 		variant := rng.Intn(len(wrappers))
-		for depth := 0; depth <= 3; depth++ {
+		depths := []int{0, 1, 2, 3}
+		if strings.ContainsAny(src, "\n\r\u2028\u2029") {
+			// a line break inside the source (multi-line literal or comment): also at the indentation widths around 32 and 64
+			// columns, where an indenter that works with a fixed buffer would change its behaviour
+			depths = append(depths, 7, 8, 9, 16, 17)
+		}
+		for _, depth := range depths {
 			for opt := 0; opt < 4; opt++ {
 				s := Wrap([]byte(src), depth, variant)
 				res := r.one(s, opt, tr.E{"origin": origin, "depth": depth})
